@@ -97,6 +97,16 @@ CHECKS = {
                 "If-terms; preconditions lower<=upper, tol>=0",
         "technique": "symbolic execution of the Python source on z3 terms + SMT (QF_LRA) obligations per path, counterexample replay",
     },
+    "C19": {
+        "text": "comports is replaced by a stub returning descriptor tuples of symbolic strings (six descriptor kinds per port, symbolic "
+                "names/tags/port digits); the eight discovery functions of both layers are executed on 0..2 (thorough: 3) ports; first-match, "
+                "listing and reported names are proved equal to the restated rules, and lookups by reported name / serial tag / port name "
+                "with a symbolic case flip per character are proved to return the chosen board unless an earlier port matches, to return "
+                "only listed ports, and to agree between layers (SNR= apart).",
+        "note": "descriptor templates and the restated match predicate are the trusted base; names 3 (thorough: 3-4) chars over letters, "
+                "digits, space, underscore; ASCII",
+        "technique": "symbolic execution of the Python source on symbolic strings + SMT obligations per path, counterexample replay",
+    },
 }
 NOT_APPLICABLE = {}
 SEED_NOTES = ("Solver-based checking of the real code: every check symbolically executes the functions of /repo's "
